@@ -340,6 +340,30 @@ theorem nodup_dedupInto (xs : List Obst) : ∀ (res : List Obst), res.Nodup → 
       apply ih
       exact List.nodup_append.mpr ⟨h, by simp, by intro a ha b hb; simp at hb; subst hb; intro e; exact hx (e ▸ ha)⟩
 
+/-! ### LaneletNetwork.translate_rotate -/
+
+theorem sync_move {n : Net} (t : Pt) (f : Nat → Nat) (hf : Function.Injective f) (hb : Buffered n) :
+    Sync (moveNet t f n) := by
+  apply sync_create
+  refine ⟨rfl, ?_, ?_⟩
+  · have : (n.lanelets.map (moveL t f)).map (·.id) = n.lanelets.map (·.id) := by
+      simp [moveL, List.map_map, Function.comp_def]
+    rw [show ({ n with lanelets := n.lanelets.map (moveL t f),
+                       buffered := (n.lanelets.map (moveL t f)).map (fun l => (l.id, l.poly)) } : Net).lanelets =
+          n.lanelets.map (moveL t f) from rfl, this]
+    exact hb.2.1
+  · have : (n.lanelets.map (moveL t f)).map (·.poly.addr) = (n.lanelets.map (·.poly.addr)).map f := by
+      simp [moveL, Lanelet.poly, List.map_map, Function.comp_def]
+    rw [show ({ n with lanelets := n.lanelets.map (moveL t f),
+                       buffered := (n.lanelets.map (moveL t f)).map (fun l => (l.id, l.poly)) } : Net).lanelets =
+          n.lanelets.map (moveL t f) from rfl, this]
+    exact hb.2.2.map hf
+
+/-- The polygon of a moved lanelet is the moved polygon. -/
+theorem moveL_ring (t : Pt) (f : Nat → Nat) (l : Lanelet) :
+    (moveL t f l).poly.ring = l.poly.ring.map (·.add t) := by
+  simp [moveL, Lanelet.poly, laneletRing, List.map_append, List.map_reverse]
+
 /-! ### Scenario.remove_lanelet(list), possibly failing half-way -/
 
 theorem scRemove_spec (ids : List Int) : ∀ (n : Net), Buffered n →
@@ -391,6 +415,7 @@ def Adm (n : Net) : Op → Prop
   | .addFrom ls => (ls.map (·.poly.addr)).Nodup ∧ ∀ l ∈ ls, l.poly.addr ∉ n.lanelets.map (·.poly.addr)
   | .copy f => Function.Injective f
   | .scRemove _ => True
+  | .move _ f => Function.Injective f
 
 /-- Every operation of a sequence is admissible in the state it is applied to. -/
 def AdmSeq : Net → List Op → Prop
@@ -404,6 +429,7 @@ def rebuilds : Op → Bool
   | .addFrom _ => true
   | .copy _ => true
   | .scRemove _ => true
+  | .move _ _ => true
 
 /-- The operation certainly rebuilds the index in state `n`. -/
 def refreshes (n : Net) : Op → Prop
@@ -412,6 +438,7 @@ def refreshes (n : Net) : Op → Prop
   | .addFrom _ => True
   | .copy _ => True
   | .scRemove ids => ∃ i ∈ ids.head?, i ∈ n.lanelets.map (·.id)
+  | .move _ _ => True
 
 
 theorem run_append (ops : List Op) : ∀ (n n1 : Net) (o : Op), run n ops = .ok n1 →
